@@ -72,6 +72,7 @@ theorem parseSign_safe (cx : Ctx c) (np rq : Bool) (ip ms : String) (b : Bytes) 
 theorem prefixPhase_safe (cx : Ctx c) (b : Bytes) (hb : Bytes.Valid b) :
     Safe (prefixPhase c b) (fun r => Adv b r.2) := by
   unfold prefixPhase
+  simp only [prefixRepair, Bool.false_eq_true, if_false]
   split
   · next hcond =>
     simp only [Bool.and_eq_true, ne_eq, decide_eq_true_eq] at hcond
